@@ -2,7 +2,7 @@
 (lean/MutagenModel/Model/Container/ApeFile.lean) with APEv2.save / APEv2.delete, and the container
 statements on the real output for synthesised layouts [audio][APEv2 tag][Lyrics3v2?][ID3v1?]."""
 import io, struct
-from vcheck import hx
+from vcheck import hx, parse_fields
 from guards import timed
 
 HAS_HEADER = 0x80000000
@@ -150,3 +150,181 @@ def run(ctx):
             if ans != impl:
                 ctx.disagree("ape file container", case, model=ans[:200], impl=impl[:200])
     return len(reqs)
+
+
+# ---------------------------------------------------------------------------------------------------------------------
+# C19 / C06 at the file-operation level: the FileM programs `saveM` / `deleteM` (Model/Container/ApeFileM.lean, driver
+# `apef op=savem|deletem`) against APEv2.save / APEv2.delete on a fault-injecting, capacity-limited file object.
+
+WELLFORMED = ("none", "tag", "tag-noheader", "tag+v1", "tag+lyrics+v1", "v1-only", "at-start")
+
+
+def _set_buffers(mode):
+    from mutagen import _util
+    funcs = [getattr(_util, n) for n in ("resize_file", "move_bytes", "insert_bytes", "delete_bytes", "resize_bytes")]
+    if not hasattr(_set_buffers, "saved"):
+        _set_buffers.saved = [f.__defaults__ for f in funcs]
+    for f, d in zip(funcs, _set_buffers.saved):
+        if mode == "small" and d:
+            f.__defaults__ = tuple(257 if x == _util._DEFAULT_BUFFER_SIZE else x for x in d)
+        else:
+            f.__defaults__ = d
+
+
+def _same_log(model_log, impl_log):
+    # relative seeks (s-8, s15, ...) are logged with their offset by FaultFile and with their absolute target by the model;
+    # read(-n) reads to the end: compare the kind of every call and the argument of all others
+    if len(model_log) != len(impl_log):
+        return False
+    for a, b in zip(model_log, impl_log):
+        if a == b:
+            continue
+        if a[0] != b[0] or a[0] not in "sr":
+            return False
+    return True
+
+
+def split_tag(tag):
+    """the three writes of APEv2.save: header, items, footer"""
+    return (tag[:32], tag[32:-32], tag[-32:]) if tag else None
+
+
+def run_faults(ctx, want=("cap", "io", "short")):
+    """generated files (the layouts of gen_file, well-formed and damaged) x (every remaining capacity 0..len(new tag) for small tags,
+    a lattice otherwise; leak 0/5/all) x (an IOError / ENOSPC at every call index) x (short reads at every read index): the real
+    APEv2.save / APEv2.delete on FaultFile vs the Lean programs under the same environment - same outcome class, same bytes left, same
+    sequence of file-object calls; and the C19 / C06 statements on the real outcome.  Returns the number of compared runs."""
+    import errno
+    from fobj import FaultFile
+    from mutagen import MutagenError
+    from mutagen.apev2 import APEv2
+    rng = ctx.rng
+    jobs = []
+    seen = set()
+
+    def violation(key, what, case, li):
+        if (key, li) not in seen:
+            seen.add((key, li))
+            ctx.violation(key, what, case)
+
+    try:
+        for li in range(ctx.budget(70, 600)):
+            data, kind, alen = gen_file(rng)
+            if kind == "at-start":
+                alen = 0
+            op = rng.choice(["save", "save", "delete"])
+            bufmode = rng.choice(["default", "small"])
+            B = 257 if bufmode == "small" else 1048576
+            _set_buffers(bufmode)
+            vals = [rng.choice(["v", "", "Ünï", "w" * 90, "z" * 400]) for _ in range(rng.randrange(0, 4))]
+            def mk():
+                t = APEv2()
+                for k, v in zip(["Title", "Album", "Year"], vals):
+                    t[k] = v
+                return t
+            g = io.BytesIO(); mk().save(g); tag = g.getvalue()
+            if op == "save":
+                t3 = split_tag(tag)
+                base = "apef op=savem data=%s B=%d %s" % (hx(data), B, "empty=1" if t3 is None else "hdr=%s items=%s ftr=%s" % tuple(hx(x) for x in t3))
+                def go(f):
+                    mk().save(f)
+            else:
+                base = "apef op=deletem data=%s B=%d" % (hx(data), B)
+                def go(f):
+                    APEv2().delete(f)
+            cdesc = {"layout": kind, "op": op, "audio_len": alen, "tag_len": len(tag) if op == "save" else None, "buffers": bufmode,
+                     "data": hx(data) if len(data) < 1200 else "len=%d" % len(data)}
+            ref = FaultFile(data)
+            k0, r0 = timed(lambda: go(ref), 20)
+            ref_ok = (k0 == "ok")
+            ncalls = ref.calls; ref_log = list(ref.log); ref_bytes = ref.getvalue()
+            wellformed = kind in WELLFORMED and b"APETAGEX" not in data[:alen] and ref_ok
+            # where the payload ends: everything before the old tag start (untagged files: the whole file)
+            payload_len = len(data) if kind in ("none", "v1-only") else alen
+            growth = max(0, len(ref_bytes) - min(len(data), payload_len if kind != "at-start" else len(data) - len(ape_tag([])) )) if op == "save" else 0
+            if op == "save":
+                growth = len(tag)
+            plans = []
+            if "cap" in want and ref_ok and op == "save" and growth > 0:
+                basecap = len(ref_bytes) - len(tag)          # the size after the old tag is gone
+                vals_r = list(range(growth + 1)) if growth <= (200 if ctx.quick else 1200) else \
+                    sorted(set([0, 1, 31, 32, 33, growth - 33, growth - 32, growth - 31, growth - 1, growth] + [rng.randrange(growth) for _ in range(16 if ctx.quick else 120)]))
+                for r in vals_r:
+                    for leak in ((0,) if (r % 4 and ctx.quick) else (0, 5, 100000)):
+                        plans.append(("cap", r, leak))
+            elif "cap" in want and ref_ok and op == "delete":
+                for r in (0, 1, 50):
+                    plans.append(("cap", r, 0))
+                basecap = 0
+            if "io" in want:
+                idx = list(range(ncalls)) if ncalls <= (80 if ctx.quick else 500) else sorted(rng.sample(range(ncalls), 80 if ctx.quick else 500))
+                for i in idx:
+                    plans.append(("io", i, "enospc" if rng.random() < 0.15 else "io"))
+            if "short" in want:
+                for i, l in enumerate(ref_log):
+                    if l.startswith("r") and l[1:].isdigit() and int(l[1:]) > 0:
+                        for kk in sorted({0, 1, int(l[1:]) // 2, int(l[1:]) - 1}):
+                            if kk < int(l[1:]):
+                                plans.append(("short", i, kk))
+            for fk, a, b in plans:
+                if fk == "cap":
+                    # capacity counted from the size the file has once the old tag is gone (a device never has less room than the file it holds)
+                    capv = max(len(data), basecap + a) if op == "save" else len(data) + a
+                    f = FaultFile(data, cap=capv, leak=b); env = "cap=%d leak=%d" % (capv, b)
+                elif fk == "io":
+                    f = FaultFile(data, fail_at=a, errno_=(errno.ENOSPC if b == "enospc" else errno.EIO)); env = "fail=%d:%s" % (a, b)
+                else:
+                    f = FaultFile(data, short=(a, b)); env = "short=%d:%d" % (a, b)
+                k, r = timed(lambda: go(f), 20)
+                after = f.getvalue()
+                st = "ok" if k == "ok" else ("hang" if k == "hang" else classify(r).replace("err ", "err:"))
+                case = dict(cdesc, fault=fk, at=a, arg=b, calls_in_clean_run=ncalls)
+                ctx.case(key=("apefile-faults", op, li, fk, a, b), nontrivial=(k != "ok" or fk != "cap" or after != data), modelled=True,
+                         sample=case if (li == 1 and fk == "cap" and a == 1 and b == 0) else None)
+                ctx.hist["apefile-faults:%s:%s:%s" % (op, fk, st)] += 1
+                jobs.append(("%s %s" % (base, env), st, after, list(f.log), case))
+                if k == "hang":
+                    violation("apefile:%s:hang" % op, "did not finish", case, li); continue
+                if k == "exc" and not isinstance(r, MutagenError) and ctx.prop == "C06":
+                    if isinstance(r, ValueError) and str(r).startswith("Can't "):
+                        key = "escape:ValueError:_util.py:verify_fileobj"
+                    else:
+                        key = "escape:%s:apefile:%s" % (type(r).__name__, op)
+                    if ref_ok:
+                        violation(key, "%s escaped from APEv2 %s (%s at %s): %s" % (type(r).__name__, op, fk, a, str(r)[:80]), case, li)
+                if fk == "cap" and ctx.prop != "C06":
+                    if k == "ok" and after != ref_bytes:
+                        violation("apefile:%s:differs-from-unlimited" % op, "returned normally on a limited device with a different file", case, li)
+                    if op == "save" and a >= growth and k != "ok":
+                        violation("apefile:save:fails-with-enough-space", "failed although the new tag fits", case, li)
+                    if op == "delete" and k != "ok":
+                        violation("apefile:delete:needs-space", "delete failed on a full device", case, li)
+                    if k == "exc" and wellformed:
+                        if not isinstance(r, MutagenError):
+                            violation("ape:raises-%s" % type(r).__name__, "ENOSPC surfaced as %s" % type(r).__name__, case, li)
+                        if kind == "at-start":
+                            keep = ref_bytes[:len(ref_bytes) - len(tag)]
+                        else:
+                            keep = data[:payload_len]
+                        if after[:len(keep)] != keep:
+                            violation("ape:payload-damaged-on-enospc", "the audio payload is no longer intact after the failed save", case, li)
+                        elif not tag.startswith(after[len(keep):]):
+                            violation("ape:junk-after-payload-on-enospc", "what remains behind the payload is not a prefix of the new tag", case, li)
+                        ctx.hist["apefile-faults:enospc:old-tag-gone"] += int(after[:len(data)] != data)
+                elif k == "ok" and fk in ("io", "short") and ctx.prop == "C06" and ref_ok and after != ref_bytes:
+                    # a swallowed fault inside get_size can only be the call in __find_metadata's `try … except IOError: pass`
+                    site = "apev2.py:__find_metadata" if f.fault_site == "_util.py:get_size" else f.fault_site
+                    violation("undetected:%s:%s" % (fk, site), "the call returned normally after the fault but the file differs from the clean run", case, li)
+    finally:
+        _set_buffers("default")
+    if ctx.model_ok() and jobs:
+        answers = ctx.driver.ask([j[0] for j in jobs])
+        for (line, st, after, log, case), ans in zip(jobs, answers):
+            ctx.traces_validated += 1
+            mst, mf = parse_fields(ans)
+            mlog = [] if mf.get("log", "-") == "-" else mf["log"].split(",")
+            if mst != st or mf.get("data") != hx(after):
+                ctx.disagree("ape file programs under faults", case, model=ans[:200], impl="%s data=%s" % (st, hx(after)[:160]))
+            elif not _same_log(mlog, log):
+                ctx.disagree("ape file programs: sequence of file-object calls", case, model=",".join(mlog)[:300], impl=",".join(log)[:300])
+    return len(jobs)
